@@ -53,6 +53,26 @@ func c10Pad(s *quic.QUICSpec, n int) {
 	s.ClientHelloSpec.Extensions = append(s.ClientHelloSpec.Extensions, &tls.GenericExtension{Id: 0xff0d, Data: make([]byte, n)})
 }
 
+// c10Contradict: the two knobs cannot both be honoured. A plan that pins an exact packet size
+// together with the number of CRYPTO bytes in it leaves no room for a 300-byte token (999 +
+// 300 + header > 1200); two knobs of the same
+// family (frame builders, per-datagram plans, ClientHello paddings) overwrite each other.
+func c10Contradict(a, b string) bool {
+	fam := func(n string) string {
+		for _, f := range []string{"fb-", "plan-", "ch-"} {
+			if strings.HasPrefix(n, f) {
+				return f
+			}
+		}
+		return ""
+	}
+	if fam(a) != "" && fam(a) == fam(b) {
+		return true // the second of two builders / plans / ClientHello paddings overwrites or duplicates the first
+	}
+	big := func(n string) bool { return n == "toklen300" }
+	return big(a) && strings.HasPrefix(b, "plan-") || big(b) && strings.HasPrefix(a, "plan-")
+}
+
 var c10Knobs = func() []c10Knob {
 	k := []c10Knob{{"base", func(s *quic.QUICSpec) {}}}
 	for _, n := range []int{0, 1, 7, 8, 20} {
@@ -503,16 +523,24 @@ func TestVerifC10(t *testing.T) {
 				cfgs = append(cfgs, c10Config{Base: b, Knobs: []int{k}, Seed: seed})
 			}
 		}
-		if e.Thorough() {
+		{
 			for b := range c10Bases {
 				for k1 := 1; k1 < len(c10Knobs); k1++ {
 					for k2 := k1 + 1; k2 < len(c10Knobs); k2++ {
+						if c10Contradict(c10Knobs[k1].Name, c10Knobs[k2].Name) {
+							continue
+						}
+						// quick tier: only a layout (frame builder or packet plan) combined with a
+						// ClientHello size that spreads it over 2-4 datagrams
+						if !e.Thorough() && !(strings.HasPrefix(c10Knobs[k2].Name, "ch-") && (strings.HasPrefix(c10Knobs[k1].Name, "fb-") || strings.HasPrefix(c10Knobs[k1].Name, "plan-"))) {
+							continue
+						}
 						cfgs = append(cfgs, c10Config{Base: b, Knobs: []int{k1, k2}, Seed: seed})
 					}
 				}
 			}
 		}
-		return cfgs, fmt.Sprintf("7 built-in fingerprints + zero spec x every one-knob deviation (%d knobs: CID lengths 0/1/7/8/20, initial packet numbers 0..2^64-1, PN length lists, tokens, frame builders, per-datagram plans, UDP minimum sizes, ClientHello sizes; pairs in thorough) x 3 dials with different seeds; silent peer, first flight + PTO retransmissions within 1.5 s", len(c10Knobs))
+		return cfgs, fmt.Sprintf("7 built-in fingerprints + zero spec x every one-knob deviation (%d knobs: CID lengths 0/1/7/8/20, initial packet numbers 0..2^64-1, PN length lists, tokens, frame builders, per-datagram plans, UDP minimum sizes, ClientHello sizes; every frame builder / packet plan x every ClientHello size; in thorough every pair except contradictory ones: two knobs of one layout family, a 300-byte token with an exact packet plan) x 3 dials with different seeds; silent peer, first flight + PTO retransmissions within 1.5 s", len(c10Knobs))
 	}
 	part := explore.Part{
 		Name: "flight-vs-spec",
